@@ -137,6 +137,7 @@ mod verif_c10 {
             }
         };
     }
+    ws_diff!(c10_str_ws_eol_len2, c10_str_blank_len2, 2, 7);
     ws_diff!(c10_str_ws_eol_len3, c10_str_blank_len3, 3, 8);
     ws_diff!(c10_str_ws_eol_len4, c10_str_blank_len4, 4, 9);
 }
